@@ -2,3 +2,4 @@ import GFS.Props.C11
 import GFS.Props.C11Gen
 import GFS.Props.C17
 import GFS.Props.C12
+import GFS.Props.C02
